@@ -137,7 +137,7 @@ func (ex *Exec) applyContract(fr *Frame, fn *ssa.Function, ct *Contract, args []
 		if rq.Label != "" {
 			name += "." + rq.Label
 		}
-		ex.oblige(st, "pre", name, c, call.Pos())
+		ex.oblige(st, "pre", name, c, posOfCall(call))
 		st.Assume(c)
 	}
 	// effects
@@ -165,8 +165,12 @@ func (ex *Exec) applyContract(fr *Frame, fn *ssa.Function, ct *Contract, args []
 			}
 		}
 	}
-	ret := ex.freshResults(st, fn.Signature)
-	// slices returned by contract are objects
+	var ret Val
+	if ct.Pure {
+		ret = ex.pureResult(fn, args, pre, ctx)
+	} else {
+		ret = ex.freshResults(st, fn.Signature)
+	}
 	post := ex.envFor(fn, params, ctx, st, pre)
 	post = resultVars(post, fn.Signature, ret)
 	post = ex.bindLets(post, ct.Lets, &errs)
@@ -185,6 +189,46 @@ func (ex *Exec) applyContract(fr *Frame, fn *ssa.Function, ct *Contract, args []
 		ex.unsupp("contract %s: %s", ct.Func, m)
 	}
 	return []Result{{st, ret}}
+}
+
+// pureResult: the result of a function with a `pure` contract is an uninterpreted function of the store, the
+// external state and the (term) arguments — the same symbol at call sites and in specifications.
+func (ex *Exec) pureResult(fn *ssa.Function, args []Val, st *State, ctx *CtxV) Val {
+	var ts []*Term
+	if ctx != nil {
+		w := st.worlds[ctx.World]
+		ts = append(ts, w.S, w.X, ctx.Time, ctx.Height)
+	}
+	for i, a := range args {
+		switch a.(type) {
+		case *CtxV, *OpaqueV, *FuncV, *StoreV:
+			continue
+		case *IfaceV:
+			if ex.ctxOf(a) != nil {
+				continue
+			}
+		}
+		ts = append(ts, ex.asTerm(st, a, fn.Params[i].Type()))
+	}
+	rs := ex.externalUF("fn_"+pkgTail(fn)+"_"+ex.contractKey(fn), fn.Signature, nil, ts)
+	for i, r := range rs {
+		tmp := NewState()
+		ex.typeInvariant(tmp, r, fn.Signature.Results().At(i).Type(), 0)
+		for _, c := range tmp.pc {
+			st.AssumeDef(c)
+		}
+	}
+	switch len(rs) {
+	case 0:
+		return nil
+	case 1:
+		return rs[0]
+	}
+	tv := &TupleV{}
+	for _, r := range rs {
+		tv.Elems = append(tv.Elems, r)
+	}
+	return tv
 }
 
 // ---------------------------------------------------------------- loop invariants
@@ -350,7 +394,8 @@ func (ex *Exec) verifyFunction(fn *ssa.Function, ct *Contract, prefix string) *F
 	params, _ := ex.paramTVs(fn, args)
 	var errs []string
 	env := ex.envFor(fn, params, ctx, st, nil)
-	env = ex.bindLets(env, ct.Lets, &errs)
+	var preErrs []string // lets that only make sense in the post-state may fail here
+	env = ex.bindLets(env, ct.Lets, &preErrs)
 	for _, rq := range ct.Requires {
 		c, err := env.EvalBool(rq.Expr)
 		if err != nil {
@@ -408,6 +453,8 @@ func (ex *Exec) verifyFunction(fn *ssa.Function, ct *Contract, prefix string) *F
 	}
 	if len(rs) > 0 {
 		ex.covers = append(ex.covers, &ObRecord{Name: prefix + "#cover:returns", Kind: "cover", PC: anyRet, Cond: True})
+	} else if len(ex.unsupported) == 0 {
+		ex.unsupp("vacuity: no returning path was explored for %s", prefix)
 	}
 	for _, m := range errs {
 		ex.unsupp("%s", m)
